@@ -50,6 +50,104 @@ def members(p):
     return out
 
 
+def _worklist_order(f, cfg, rn, name):
+    """`leaves` computed with an explicit work list: out = []; todo = deque((self,)); while todo: node = todo.pop*();
+    push node.children | record node; return tuple(out).  The order of the result is decided by the discipline of the
+    work list: taken and pushed on the same end with the children reversed = pre-order; children not reversed =
+    right-to-left pre-order; taken and pushed on different ends = level order.
+    -> ("preorder"|other order, description, node) or None when the shape is not this idiom"""
+    if name != "leaves":
+        return None
+    fn = f.node
+    whiles = [w for w in walk_own(fn) if isinstance(w, ast.While)]
+    if len(whiles) != 1 or any(isinstance(x, (ast.For, ast.Try, ast.With)) for x in walk_own(fn)):
+        return None
+    w = whiles[0]
+    if not isinstance(w.test, ast.Name) or w.orelse:
+        return None
+    todo = w.test.id
+    inits = [a for a in fn.body if isinstance(a, ast.Assign) and len(a.targets) == 1 and norm(a.targets[0]) == todo]
+    if len(inits) != 1:
+        return None
+    iv = inits[0].value
+    if isinstance(iv, ast.Call) and isinstance(iv.func, ast.Name) and iv.func.id in ("deque", "list") and len(iv.args) == 1 and not iv.keywords:
+        iv = iv.args[0]
+    if not (isinstance(iv, (ast.List, ast.Tuple)) and len(iv.elts) == 1 and norm(iv.elts[0]) == f.selfname):
+        return None
+    # every use of the work list inside the loop
+    pops, pushes, other = [], [], []
+    for n in ast.walk(w):
+        if isinstance(n, ast.Name) and n.id == todo and n is not w.test:
+            other.append(n)
+    popped = None
+    for st in ast.walk(w):
+        if isinstance(st, ast.Assign) and len(st.targets) == 1 and isinstance(st.targets[0], ast.Name) and isinstance(st.value, ast.Call) \
+                and isinstance(st.value.func, ast.Attribute) and norm(st.value.func.value) == todo and st.value.func.attr in ("pop", "popleft"):
+            c = st.value
+            if c.func.attr == "pop" and not c.args:
+                side = "R"
+            elif c.func.attr == "popleft" and not c.args:
+                side = "L"
+            elif c.func.attr == "pop" and len(c.args) == 1 and isinstance(c.args[0], ast.Constant) and c.args[0].value in (0, -1):
+                side = "L" if c.args[0].value == 0 else "R"
+            else:
+                return None
+            pops.append((st, side))
+            popped = st.targets[0].id
+        elif isinstance(st, ast.Expr) and isinstance(st.value, ast.Call) and isinstance(st.value.func, ast.Attribute) \
+                and norm(st.value.func.value) == todo and st.value.func.attr in ("extend", "extendleft") and len(st.value.args) == 1:
+            pushes.append((st, "R" if st.value.func.attr == "extend" else "L", st.value.args[0]))
+        elif isinstance(st, ast.AugAssign) and norm(st.target) == todo and isinstance(st.op, ast.Add):
+            pushes.append((st, "R", st.value))
+    if len(pops) != 1 or len(pushes) != 1 or len(other) != 2 or w.body[0] is not pops[0][0]:
+        return None
+    # the children of the node just taken (through one local alias)
+    kid_alias = {"%s.children" % popped}
+    for st in w.body:
+        if isinstance(st, ast.Assign) and len(st.targets) == 1 and isinstance(st.targets[0], ast.Name) and norm(st.value) == "%s.children" % popped:
+            kid_alias.add(st.targets[0].id)
+    pst, pside, px = pushes[0]
+    rev = False
+    if isinstance(px, ast.Call) and isinstance(px.func, ast.Name) and px.func.id == "reversed" and len(px.args) == 1:
+        rev, px = True, px.args[0]
+    elif isinstance(px, ast.Subscript) and norm(px.slice) == "::-1":
+        rev, px = True, px.value
+    if norm(px) not in kid_alias:
+        return None
+    # the record: out.append(node) exactly when the node has no children; the push whenever it has some
+    recs = [st for st in ast.walk(w) if isinstance(st, ast.Expr) and isinstance(st.value, ast.Call) and isinstance(st.value.func, ast.Attribute)
+            and st.value.func.attr == "append" and len(st.value.args) == 1 and norm(st.value.args[0]) == popped]
+    if len(recs) != 1:
+        return None
+    out = norm(recs[0].value.func.value)
+    rv = rn.ast.value
+    if isinstance(rv, ast.Call) and isinstance(rv.func, ast.Name) and rv.func.id in ("tuple", "list") and len(rv.args) == 1:
+        rv = rv.args[0]
+    if norm(rv) != out:
+        return None
+
+    def kid_guards(st):
+        g = []
+        for cn in cfg.nodes_of(st):
+            for c_, o_, _g in cfg.guards_of(cn):
+                if norm(c_) == todo:
+                    continue
+                g.append((norm(c_), o_))
+        return g
+    rg, pg = kid_guards(recs[0]), kid_guards(pst)
+    if len(rg) != 1 or rg[0][0] not in kid_alias or rg[0][1] is not False:
+        return None
+    if pg and not (len(pg) == 1 and pg[0][0] in kid_alias and pg[0][1] is True):
+        return None
+    ends = "taken at the %s end, children pushed at the %s end%s" % ("right" if pops[0][1] == "R" else "left", "right" if pside == "R" else "left",
+                                                                        " reversed" if rev else " in their order")
+    if pops[0][1] != pside:
+        return ("level order (first in, first out)", "is used as a queue (%s)" % ends, pst)
+    if not rev:
+        return ("right-to-left pre-order (last child first)", "is used as a stack with the children pushed in their order (%s)" % ends, pst)
+    return ("preorder", ends, pst)
+
+
 def run(ctx):
     p = ctx.p
     typer = typer_for(ctx)
@@ -125,6 +223,23 @@ def run(ctx):
             ctx.inst("N2", f, r[0], "is_leaf ⇔ no children")
         else:
             ctx.viol("N2", f, f.node, "is_leaf is not an emptiness test of the node's children (`%s`)" % txt, construct="%s.is_leaf definition" % m)
+        # root: the climb may only step to a parent it has just found to be not None.  `while hasattr(node, "<parent field>")`
+        # is not that test: a node that was attached once and detached again has the field, holding None
+        f = p.func(m, "root")
+        for lp in [x for x in walk_own(f.node) if isinstance(x, ast.While)]:
+            steps = [a_ for a_ in ast.walk(lp) if isinstance(a_, ast.Assign) and len(a_.targets) == 1 and isinstance(a_.targets[0], ast.Name)
+                     and any(isinstance(x, ast.Attribute) and x.attr in ("parent", "__parent", mangle(m, "__parent")) and isinstance(x.value, ast.Name)
+                             and x.value.id == a_.targets[0].id for x in ast.walk(a_.value))]
+            if not steps:
+                continue
+            t = lp.test
+            only_hasattr = isinstance(t, ast.Call) and isinstance(t.func, ast.Name) and t.func.id == "hasattr" and len(t.args) == 2 \
+                and isinstance(t.args[1], ast.Constant) and t.args[1].value == mangle(m, "__parent")
+            if only_hasattr:
+                ctx.viol("N2", f, t, "root climbs while the node merely HAS the parent field (`%s`): a detached node has the field with value None, "
+                         "the climb steps onto None and root is None for every node of such a tree" % norm(t), construct="%s.root climbs on hasattr" % m)
+            else:
+                ctx.inst("N2", f, lp.test, "root climbs under `%s`" % norm(t)[:50])
         for name in ("siblings", "ancestors"):
             f = p.func(m, name)
             cfg = typer.cfg_of(f)
@@ -147,12 +262,16 @@ def run(ctx):
     CSET = {"children", "__children", "__children_or_empty"} | {mangle(m_, a_) for m_ in T.MIXINS for a_ in ("__children", "__children_or_empty")}
     from ..nodetype import has_node
     direct = {}
+    from ..nodetype import is_top
+    nav_set = set(members(p))
     for f in p.all_funcs:
         ft = typer.results.get(f)
         d = set()
         if ft is not None:
             for n in walk_own(f.node):
-                if isinstance(n, ast.Attribute) and isinstance(n.ctx, ast.Load) and "node" in (ft.type_of(n.value) or ()):
+                if isinstance(n, ast.Attribute) and isinstance(n.ctx, ast.Load) and (
+                        "node" in (ft.type_of(n.value) or ()) or (f in nav_set and is_top(ft.type_of(n.value)))):
+                    # (inside a navigation member an untyped receiver - e.g. a node taken from a work list - counts as well)
                     if n.attr in PSET:
                         d.add("P")
                     elif n.attr in CSET:
@@ -263,7 +382,14 @@ def run(ctx):
                 elif src:
                     ctx.viol("N7", f, rn.ast, "%s passes the pre-order through %s(): the order is no longer pre-order" % (name, reord[0].func.id))
                 else:
-                    unfollowed.append("%s.%s is not computed from PreOrderIter(self): its order is not followed" % (m, name))
+                    wl = _worklist_order(f, cfg, rn, name)
+                    if wl is None:
+                        unfollowed.append("%s.%s is not computed from PreOrderIter(self): its order is not followed" % (m, name))
+                    elif wl[0] == "preorder":
+                        ctx.inst("N7", f, rn.ast, "%s collected by a work list used as a stack with the children pushed in reverse: pre-order (%s)" % (name, wl[1]))
+                    else:
+                        ctx.viol("N7", f, wl[2], "%s is collected with a work list that %s: the nodes come out in %s, not in the pre-order of "
+                                 "the subtree" % (name, wl[1], wl[0]), construct="%s.%s work list: %s" % (m, name, wl[0]))
     if unfollowed:
         ctx.extra["N7_unfollowed"] = unfollowed
     # ---- N6: no deferred computation (generator expression, lambda, nested function) created inside a loop reads a
